@@ -10,6 +10,9 @@
 (*    encrypt (PKE)             : 2 (encapsulation, then the AEAD nonce)   *)
 (*    header with metadata      : 2 (encapsulation, then the AEAD nonce)   *)
 (*    header without metadata   : 1                                        *)
+(* -- as documented; the number of sections actually used is MEASURED on   *)
+(* the tree under test (RngCalls.tla), so that a call whose lock scope was *)
+(* split or merged is explored with the sections it really has.           *)
 (* Inside a section the thread draws values from the CSPRNG, modelled as   *)
 (* a per-instance counter.  Constant Nested names calls that would take    *)
 (* their second section while still holding the first (the defect the      *)
@@ -22,7 +25,7 @@
 (*  - check  : lock events observed on the real library (forced schedules  *)
 (*             and free-running stress) are validated line by line.        *)
 (***************************************************************************)
-EXTENDS RngCalls, Sequences, FiniteSets, TLC, Json, IOUtils
+EXTENDS RngCalls, Sequences, FiniteSets, TLC
 
 CONSTANTS Programs,     \* sequence (one per thread) of sequences of call names
           Nested        \* set of call names taking section 2 inside section 1
